@@ -74,6 +74,7 @@ def h_ser(F, res, cg):
 
 
 def h_iter(F, res, cg):
+    e6.CURRENT_F = F
     reach = cg.reachable(ROOTS + [TII_ROOT])
     rows = {r["key"]: r["reason"] for r in table("e6_rows")["iter"]}
     n = 0
